@@ -3,6 +3,10 @@
 import json, subprocess
 
 CHECKS = {
+ "C13": dict(category="exploration", design="§3 C13",
+   text="Every non-graphics built-in x all argument tuples from value classes, compared with reference built-ins written from docs/builtins.md (rune-wise string functions, err/errmsg protocol, verbs, typeof, test/exit/panic); explicit-state search of the err/errmsg protocol (all histories to depth 4/5); all sequences of <= 2/3 test/exit/panic calls x FailFast x NoTestSummary incl. counts, summary and the binary's exit status; rand/rand1 range laws for every n class x 8 seeds x 64 draws; all value shapes x documented verbs x flags x width x precision; all documented examples with recorded output.",
+   note="Undocumented behaviour (other verbs, wrong argument counts, %s/%q of composites, replace with empty pattern) is not judged. Math functions are compared with Go's math. Recorded findings: printf verb mismatch does not panic; rand 0.5 panics.",
+   technique="bounded-exhaustive enumeration of calls and call histories, differential against documented reference built-ins"),
  "C08": dict(category="model_checking", design="§3 C08",
    text="Schedules = iteration orders of every Go map the code ranges over. A build-time rewriter (go/packages, -overlay; /repo untouched; regenerated from the working tree on every run so that new map ranges are instrumented automatically) routes every `for .. range <map>` through a seam; the explorer enumerates all n! orders of ranges over <= 4 (thorough 5) keys and 8 structured orders of larger tables with <= 2 (3) deviations per execution, over a program family built so that every map-backed collection holds several entries, and requires identical parse errors, Format text, platform trace and result on every schedule; plus in-process histories (A then B vs B) and repeated fresh processes of the uninstrumented binary.",
    note="Dependence on addresses or timing that does not flow through a map range is outside the seam (none found by reading).",
